@@ -108,7 +108,7 @@ func runC19(c *core.Ctx, o Options) {
 			c.Check(an.Render(enq.Call.Args[1]) == an.Render(toBytes)+"#0", "H1", "DefaultHandler.send", "the bytes enqueued are ToBytes' result", enq.Pos(),
 				"sendRaw(h, ToBytes()#0)", "the enqueued bytes are "+an.Render(enq.Call.Args[1])+", not what ToBytes returned after the handlers ran")
 			// the message passed to handlers and serialized is the parameter
-			msgName := send.Params[1].Name()
+			msgName := an.Render(send.Params[1])
 			okMsg := an.Render(toBytes.Call.Value) == msgName && strings.HasPrefix(an.Render(eff[rType].Arg(1)), msgName+".")
 			for _, rc := range []*ssa.Call{rAll, rType} {
 				if !handlerCalledWith(eff[rc], ssa.Value(send.Params[1])) {
